@@ -5,13 +5,26 @@ import glob, json, os, sys
 V = os.path.dirname(os.path.dirname(os.path.abspath(__file__)))
 sys.path.insert(0, V)
 
-LEVEL = {
- 'C01': ('held on K generated (language, model) executions: every nested call of the real step-expression evaluator and every direct call on a sub-expression compared with an independent interval semantics, children/parents of every node compared end-to-end, termination decided as bounded progress with a cycle side-condition',
-         'runtime monitoring: per-call oracle on the wrapped recursive evaluator + end-to-end reference comparison over generated workloads'),
- 'C02': ('held on K generated executions: node multiset, every node attribute, id / full-name uniqueness and both lookups compared with the reference product asset x folded steps after real generation',
-         'runtime monitoring: post-generation invariant + reference-model comparison over generated workloads'),
- 'C03': ('held on K random histories of lookups / regenerations / generations: every return value of the real resolver compared with a reference fold on a load-time snapshot, loaded specification deep-compared after every step',
-         'runtime monitoring: wrapped resolver with per-call oracle + snapshot comparison at every history step'),
+TECH = {
+ 'C01': 'runtime monitoring: per-call oracle on the wrapped recursive evaluator (every nested call vs an independent interval semantics) + end-to-end reference comparison + sound non-termination signals, over generated (language, model) workloads',
+ 'C02': 'runtime monitoring: post-generation invariant and reference-model comparison (asset x folded steps) over generated workloads with hostile names',
+ 'C03': 'runtime monitoring: wrapped resolver with per-call oracle (reference fold on a load-time snapshot) + deep snapshot comparison after every step of random histories',
+ 'C04': 'runtime monitoring: round-trip checker (print spec -> real compiler -> field-by-field comparison) over generated programs and include layouts, anchored on the malc-compiled coreLang specs',
+ 'C05': 'runtime monitoring: lock-step reference model (shadow Model) compared after every operation of bounded-exhaustive and random histories; snapshot before/after every raising operation',
+ 'C06': 'runtime monitoring: reference comparison of the generated classes + labelled legal/illegal construction attempts observed through exceptions and the model serialisation',
+ 'C07': 'runtime monitoring: offline typed checker of save/load artefacts against the abstract model the real Model was built from (lock-step history), incl. hand-written files',
+ 'C08': 'runtime monitoring: reference greatest fixed point vs labels of the real analysis on live graphs, permutation-invariance oracle; bounded-exhaustive small graphs + random + generated graphs',
+ 'C09': 'runtime monitoring: structural invariants I1-I3 (identity based) at quiescent points after every operation of bounded-exhaustive and random histories; regenerate vs fresh graph',
+ 'C10': 'runtime monitoring: offline typed checker original vs loaded attack graph after random operation histories, json/yml, with/without model',
+ 'C11': 'runtime monitoring: relation-symmetry invariant after every compromise / undo / add / remove operation (bounded-exhaustive + random histories), idempotence by before/after comparison, attach oracle from the abstract model',
+ 'C12': 'runtime monitoring: definitional reference for every query answer, incremental-vs-recomputed oracle, deep snapshot before/after every query; bounded-exhaustive small graphs + random graphs',
+ 'C13': 'runtime monitoring: survivor-set oracle computed from the labels before the call + invariants I1-I3 on the pruned graph; bounded-exhaustive small graphs + random graphs with adjacent prunable runs',
+ 'C14': 'runtime monitoring: identity scan of every node / attacker / nested container of a deep copy + mutation histories on one graph with deep snapshots of the other',
+ 'C15': 'runtime monitoring: structural comparison of the language graph with the reference language (all ordered pairs / orientations), ill-formed variants must raise, every generated attack-graph edge checked against the language-graph links',
+ 'C16': 'runtime monitoring: offline comparison of SHA-256 digests of serialised graphs across repeated generation, fresh processes with 5 hash seeds and 14 construction routes; input snapshots before/after',
+ 'C17': 'runtime monitoring: token-level mutation workload labelled by the grammar itself (counting listeners on the same generated lexer/parser), oracle: erroneous => compile must raise; exhaustive single-token deletions/truncations of the corpus',
+ 'C18': 'runtime monitoring: differential checker native loader vs 0.0.39 loader vs .sCAD loader on files emitted from one abstract model by inverse translations',
+ 'C19': 'runtime monitoring: recording stand-in for the database driver + offline isomorphism checker over the recorded subgraph + import round trip served from the recording',
 }
 NOTE = 'trusted: the independent reference models under mtv/ (ref_sem.py and the per-property oracles), the generators\' well-formedness envelope (DESIGN 2), python-jsonschema-objects / PyYAML / antlr4 runtime as libraries'
 
@@ -25,8 +38,12 @@ checks, na = [], []
 for p in props:
     pid = p['id']
     if pid in have and pid not in pending:
-        text, tech = LEVEL.get(pid, ('held on K generated executions observed by the monitors described in DESIGN.md 5/%s' % pid,
-                                     'runtime monitoring over generated workloads'))
+        import importlib
+        meta = importlib.import_module('mtv.props.' + pid).META
+        rule = ' '.join(meta['rule'].split())
+        text = ('exploration: the property held on every execution the run produced (counts, classes and samples in the evidence file); '
+                'a run is held / violated / inconclusive, never "verified". What is executed and compared: ' + rule)
+        tech = TECH[pid]
         checks.append({
             'property_id': pid,
             'quick_cmd': './check %s --tier quick' % pid,
